@@ -1304,6 +1304,15 @@ pub fn check_step(cx: &StepCtx) -> Vec<Violation> {
             }
         }
     }
+    // the pause is lifted only by the owner's UpdateParams, or by the migration that moves the last
+    // legacy entries; a migration with nothing to migrate changes nothing
+    if pre.paused && !post.paused && is_tx && ok {
+        let by_owner_params = matches!(op, Op::Tx { sender, target, call: call @ Call::Hub(HubMsg::UParams(..)), .. } if *target == HUB && authorised(cx.chain_pre, *sender, HUB, call) == Some(true));
+        let by_last_migration = kind == "hub.migrate" && pre.legacy > 0 && post.legacy == 0;
+        if !by_owner_params && !by_last_migration {
+            out.push(v("C11", "unpaused-without-owner", format!("{} lifted the pause (legacy entries {} → {})", kind, pre.legacy, post.legacy)));
+        }
+    }
     if pre.legacy > 0 && pre.paused && !post.paused && post.legacy > 0 {
         out.push(v("C11", "unpaused-with-legacy-entries", format!("{} unpaused with {} legacy entries", kind, post.legacy)));
     }
